@@ -57,6 +57,17 @@ class FakeSocket(object):
     def shutdown(self, how):
         pass
 
+    cert_der = b''
+
+    def getpeercert(self, binary_form=False):
+        return self.cert_der if binary_form else {}
+
+    def cipher(self):
+        return ('TLS_AES_128_GCM_SHA256', 'TLSv1.3', 128)
+
+    def unwrap(self):
+        return self
+
     def close(self):
         self.closed = True
 
